@@ -357,6 +357,67 @@ def normalise_params(trees: list[ast.Module]) -> list[str]:
     return done
 
 
+def positionalise_calls(trees: list[ast.Module]) -> int:
+    """Normal form for calls of package functions: keyword arguments that
+    continue the positional prefix are turned into positional arguments
+    (``f(a, y=b)`` with ``def f(x, y, z=0)`` becomes ``f(a, b)``), so that a
+    rule reading "the first argument" sees the same thing whichever way the
+    call is spelled.  Only for callees whose simple name is defined exactly
+    once in the package, without ``*args`` / ``**kwargs`` on either side."""
+    defs: dict[str, list[tuple[Optional[str], ast.FunctionDef]]] = {}
+    classes: dict[str, list[ast.ClassDef]] = {}
+    for tree in trees:
+        for cls, f in _iter_defs(tree):
+            defs.setdefault(f.name, []).append((cls, f))
+        for st in tree.body:
+            if isinstance(st, ast.ClassDef):
+                classes.setdefault(st.name, []).append(st)
+    changed = 0
+    for tree in trees:
+        for n in ast.walk(tree):
+            if not isinstance(n, ast.Call) or not n.keywords:
+                continue
+            if any(isinstance(a, ast.Starred) for a in n.args) or any(
+                    k.arg is None for k in n.keywords):
+                continue
+            name = call_name(n)
+            if name is None:
+                continue
+            target: Optional[ast.FunctionDef] = None
+            skip = 0
+            if name in classes and len(classes[name]) == 1 and isinstance(
+                    n.func, ast.Name):
+                inits = [f for c, f in defs.get("__init__", [])
+                         if c == name]
+                if len(inits) == 1:
+                    target, skip = inits[0], 1
+            elif len(defs.get(name, [])) == 1 and name not in classes:
+                cls, f = defs[name][0]
+                static = any((dotted(d) or "") in ("staticmethod",)
+                             for d in f.decorator_list)
+                if cls is None and isinstance(n.func, ast.Name):
+                    target, skip = f, 0
+                elif cls is not None and isinstance(n.func, ast.Attribute):
+                    target, skip = f, (0 if static else 1)
+            if target is None:
+                continue
+            a = target.args
+            if a.vararg or a.kwarg or a.posonlyargs:
+                continue
+            params = [x.arg for x in a.args][skip:]
+            pos = len(n.args)
+            kws = {k.arg: k for k in n.keywords}
+            moved = []
+            while pos < len(params) and params[pos] in kws:
+                moved.append(kws.pop(params[pos]))
+                pos += 1
+            if moved:
+                n.args = list(n.args) + [k.value for k in moved]
+                n.keywords = [k for k in n.keywords if k not in moved]
+                changed += 1
+    return changed
+
+
 class Index:
     """Parsed view of ``<root>/tel2puml``."""
 
@@ -394,6 +455,8 @@ class Index:
             self.modules[modname] = mod
             pkg_flags[modname] = path.name == "__init__.py"
         self.normalised_params = normalise_params(
+            [m.tree for m in self.modules.values()])
+        self.positionalised_calls = positionalise_calls(
             [m.tree for m in self.modules.values()])
         for modname, mod in self.modules.items():
             self._index_module(mod, is_pkg=pkg_flags[modname])
